@@ -233,6 +233,8 @@ def _optints(l):
 
 def enc_op(op):
     if "g" in op:
+        if op["ccv"] is None:      # classical_control_value left at its default (the model computes it)
+            return "g.%d.%s.%s.D" % (op["g"], _ints(op["q"]), _optints(op["cc"]))
         return "g.%d.%s.%s.%d" % (op["g"], _ints(op["q"]), _optints(op["cc"]), op["ccv"])
     return "m.%d.%s" % (op["m"], "N" if op["store"] is None else str(op["store"]))
 
@@ -384,11 +386,12 @@ def build_circuit(case):
             code, q = op["g"], op["q"]
             nc = NCTRL[code]
             kw = {}
-            if op["cc"] is not None and not case.get("assign"):
+            if op["cc"] is not None and (not case.get("assign") or op["ccv"] is None):
                 kw["classical_controls"] = list(op["cc"])
-                kw["classical_control_value"] = op["ccv"]
+                if op["ccv"] is not None:          # None: left at the default of Gate.__init__
+                    kw["classical_control_value"] = op["ccv"]
             qc.add_gate(GATE_NAMES[code], targets=list(q[nc:]), controls=(list(q[:nc]) if nc else None), **kw)
-            if op["cc"] is not None and case.get("assign"):
+            if op["cc"] is not None and case.get("assign") and op["ccv"] is not None:
                 # the condition is ASSIGNED on the gate object after add_gate (as circuit/_decompose.py and user code
                 # do): the simulator reads the gate's attributes when it executes the gate
                 qc.gates[-1].classical_controls = list(op["cc"])
@@ -416,7 +419,8 @@ def apply_edit(qc, cur_ops, new_ops, how):
             kw = {}
             if b["cc"] is not None:
                 kw["classical_controls"] = list(b["cc"])
-                kw["classical_control_value"] = b["ccv"]
+                if b["ccv"] is not None:
+                    kw["classical_control_value"] = b["ccv"]
             qc.add_gate(GATE_NAMES[b["g"]], targets=list(b["q"][nc:]), controls=(list(b["q"][:nc]) if nc else None),
                         **idx, **kw)
         else:
@@ -453,7 +457,8 @@ def apply_edit(qc, cur_ops, new_ops, how):
                 g.controls = list(b["q"][:nc])
             if (a["cc"], a["ccv"]) != (b["cc"], b["ccv"]):
                 g.classical_controls = None if b["cc"] is None else list(b["cc"])
-                g.classical_control_value = b["ccv"] if b["cc"] is not None else None
+                g.classical_control_value = (None if b["cc"] is None else
+                                             (b["ccv"] if b["ccv"] is not None else 2 ** len(b["cc"]) - 1))
             continue
         qc.remove_gate_or_measurement(index=i)
         if "g" in b:
@@ -461,7 +466,8 @@ def apply_edit(qc, cur_ops, new_ops, how):
             kw = {}
             if b["cc"] is not None:
                 kw["classical_controls"] = list(b["cc"])
-                kw["classical_control_value"] = b["ccv"]
+                if b["ccv"] is not None:
+                    kw["classical_control_value"] = b["ccv"]
             qc.add_gate(GATE_NAMES[b["g"]], targets=list(b["q"][nc:]), controls=(list(b["q"][:nc]) if nc else None),
                         index=[i], **kw)
         else:
@@ -642,7 +648,8 @@ def run_impl(case, rng, qc=None, observer=None, handlers=None):
                     sim.step()
                     chunks.append({"kind": "S", "events": inst.take()})
                 elif c[0] == "state":
-                    chunks.append({"kind": "G", "state": qobj_np(sim.state)})
+                    st_obj = sim.state
+                    chunks.append({"kind": "G", "state": qobj_np(st_obj), "obj": st_obj})
                 elif c[0] == "edit":
                     apply_edit(qc, objs["ops"], versions[c[1]], c[2] if len(c) > 2 else "replace")
                     objs["ops"] = versions[c[1]]
@@ -655,6 +662,18 @@ def run_impl(case, rng, qc=None, observer=None, handlers=None):
             if observer:
                 observer(j, c, "after", objs, chunks[-1])
         picks = list(inst.picks)
+    # every state object handed out during the history is compared again at the END with the value it had when it was
+    # returned: later calls must not rewrite it
+    def _same(a, b):
+        return (a is None and b is None) or (a is not None and b is not None and a.shape == b.shape and np.array_equal(a, b))
+    for ch in chunks:
+        if ch["kind"] == "G" and "obj" in ch:
+            if not _same(qobj_np(ch["obj"]), ch["state"]):
+                ch["kept_changed"] = True
+        elif ch["kind"] == "R" and "res" in ch:
+            now = [qobj_np(s) for s in ch["res"].final_states]
+            if len(now) != len(ch["states"]) or not all(_same(a, b) for a, b in zip(now, ch["states"])):
+                ch["kept_changed"] = True
     simw = None
     if hasattr(sim, "_op_index"):
         mr = sim._measure_results
@@ -711,6 +730,9 @@ def compare(case, model, impl):
             # matrix-shaped array): outside the modelled domain from here on; the case is tagged
             case["_garbage"] = True
             return None
+        if i.get("kept_changed"):
+            return (f"call {j}: the state object(s) returned by this call were changed by LATER calls (value at the end of "
+                    f"the history differs from the value when returned)")
         if m["heap"] != i["heap"]:
             return f"call {j}: caller's lists after the call model={m['heap']} impl={i['heap']}"
         if m["kind"] != i["kind"]:
@@ -766,7 +788,7 @@ def compare(case, model, impl):
 # ------------------------------------------------------------------------------------------
 # generators
 
-def rand_gate(rng, n, ncb, big_ccv=0.08, p_cc=0.45):
+def rand_gate(rng, n, ncb, big_ccv=0.08, p_cc=0.45, p_default=0.0):
     codes = [c for c in GATE_ARITY if GATE_ARITY[c] <= n]
     code = rng.choice(codes)
     q = rng.sample(range(n), GATE_ARITY[code])
@@ -777,12 +799,14 @@ def rand_gate(rng, n, ncb, big_ccv=0.08, p_cc=0.45):
         ccv = rng.randrange(2 ** len(cc))
         if rng.random() < big_ccv:
             ccv = 2 ** len(cc) + rng.randrange(2 ** len(cc) + 1)
+        elif rng.random() < p_default:
+            ccv = None            # classical_control_value left at its default
     elif rng.random() < 0.03:
         cc, ccv = [], 0
     return {"g": code, "q": q, "cc": cc, "ccv": ccv}
 
 
-def rand_circuit(rng, n, ncb, nops, maxm, big_ccv=0.08):
+def rand_circuit(rng, n, ncb, nops, maxm, big_ccv=0.08, p_default=0.0):
     ops, m = [], 0
     for _ in range(nops):
         r = rng.random()
@@ -793,7 +817,7 @@ def rand_circuit(rng, n, ncb, nops, maxm, big_ccv=0.08):
             ops.append({"m": rng.randrange(n), "store": store})
             m += 1
         else:
-            ops.append(rand_gate(rng, n, ncb, big_ccv))
+            ops.append(rand_gate(rng, n, ncb, big_ccv, p_default=p_default))
     return ops
 
 
